@@ -4,6 +4,7 @@ import (
 	"fmt"
 	"go/token"
 	"go/types"
+	"sort"
 	"strings"
 
 	"golang.org/x/tools/go/ssa"
@@ -45,9 +46,10 @@ func inServerPkg(fn *ssa.Function) bool {
 // durability point.
 func ruleR2(c *Ctx, id string) {
 	V, P, R := c.V, c.P, c.R
-	R.Rule(id, "only fstxn.commitWait/CommitFh call the journal's durability points; both write the allocator bitmaps (PreCommit) before and run PostCommit after, on every path", 12)
+	R.Rule(id, "the journal's durability points are reached only through the commit terminators of fstxn; on every path of each of them the allocator bitmaps are written (PreCommit) before the durability point, PostCommit runs after it unless the journal refused the commit, and no lock is released or free published before it; Commit/CommitData wait for stable storage, CommitUnstable does not", 12)
 	dur := funcIs(V.JrnlCommitWait, V.LogFlush, V.LogCommitWait)
-	allowed := map[*ssa.Function]bool{V.commitWait: true, V.CommitFh: true}
+	cp := commitProtocol(c)
+	home := funcPkg(V.Commit)
 	for _, fn := range P.RepoFuncs() {
 		rp := relPkg(fn)
 		if strings.HasPrefix(rp, "cmd/") {
@@ -58,120 +60,46 @@ func ruleR2(c *Ctx, id string) {
 			cal := P.Callees(call)[0]
 			key := fmt.Sprintf("%s|calls %s", FuncName(fn), FuncName(cal))
 			if inServerPkg(fn) {
-				okFn := allowed[fn] || actsFor(P, fn, func(g *ssa.Function) bool { return allowed[g] }, 0)
-				R.Check(okFn, id, key, P.Pos(call.Pos()), "durability point called only from the commit funnel", "inside the funnel", "a commit outside fstxn.commitWait/CommitFh bypasses PreCommit: pointers would be committed without their bitmap bits")
+				okFn := funcPkg(fn) == home && cp.durSeen[call]
+				R.Check(okFn, id, key, P.Pos(call.Pos()), "durability point called only from the commit funnel (a function of fstxn reached from its commit terminators)", "inside the funnel", "a commit outside fstxn's terminators bypasses PreCommit: pointers would be committed without their bitmap bits")
 			} else {
 				R.Pass(id, key, P.Pos(call.Pos()), "durability call site outside the full server", "owned by C17/C18 (simple, kvs)")
 			}
 		}
 	}
-	pre := P.NewAlways(callTo(V.PreCommit))
-	post := P.NewAlways(callTo(V.PostCommit))
-	rel := P.NewAlways(callTo(V.releaseInodes))
-	for _, f0 := range []*ssa.Function{V.commitWait, V.CommitFh} {
-		if f0 == nil {
+	for _, e := range cp.entries {
+		f := e.fn
+		if e.exceeded {
+			R.Undecided(id, FuncName(f)+"|paths", P.Pos(f.Pos()), "every path of the terminator is explored", "path budget exceeded")
 			continue
 		}
-		f := funnelBody(c, f0, dur).Fn
-		calls := P.CallsIn(f, dur)
-		if len(calls) == 0 {
-			R.Fail(id, FuncName(f)+"|durability", P.Pos(f.Pos()), "funnel reaches a durability point", "no call to CommitWait/Flush in the funnel")
+		if !e.reachedDur {
+			R.Fail(id, FuncName(f)+"|durability", P.Pos(f.Pos()), "the terminator reaches a durability point", "no path of it reaches CommitWait/Flush")
 			continue
 		}
-		mb := MustBefore(f, pre.Instr)
-		for _, call := range calls {
-			// a commit the journal refuses (result false) is undone, not published: judged by C09.A8
-			var refused func(from, to *ssa.BasicBlock) bool
-			if cv, isC := call.(*ssa.Call); isC && staticCallee(call) == V.JrnlCommitWait {
-				refused = boolEdge(f, cv, false)
-			}
-			ma := MustAfterE(f, post.Instr, nil, refused)
-			k := FuncName(f) + "|PreCommit before durability"
-			R.Check(mb(call), id, k, P.Pos(call.Pos()), "AllocTxn.PreCommit (bitmap bits) on every path before the durability point", "must-precede holds", "a path reaches the durability point without PreCommit: allocated blocks/inodes are committed without their bitmap bits")
-			k = FuncName(f) + "|PostCommit after durability"
-			R.Check(ma(call), id, k, P.Pos(call.Pos()), "AllocTxn.PostCommit on every path after the durability point", "must-follow holds", "a path returns without PostCommit: freed numbers never return to the in-memory allocator")
-			// no lock release / PostCommit before the durability point
-			early := false
-			for _, b := range f.Blocks {
-				for _, in := range b.Instrs {
-					if (rel.Instr(in) || post.Instr(in)) && in != call && reachableFrom(in, call) {
-						early = true
-					}
-				}
-			}
-			k = FuncName(f) + "|release after durability"
-			R.Check(!early, id, k, P.Pos(call.Pos()), "locks are released and frees published only after the durability point", "no release/PostCommit can precede it", "locks released or frees published before the commit point")
-		}
+		R.Check(e.preBad == "", id, FuncName(f)+"|PreCommit before durability", P.Pos(f.Pos()), "AllocTxn.PreCommit (bitmap bits) on every path before the durability point", "holds on every explored path", "a path reaches the durability point at "+e.preBad+" without PreCommit: allocated blocks/inodes are committed without their bitmap bits")
+		R.Check(e.postBad == "", id, FuncName(f)+"|PostCommit after durability", P.Pos(f.Pos()), "AllocTxn.PostCommit on every path after the durability point (unless the journal refused the commit)", "holds on every explored path", "the path returning at "+e.postBad+" may have committed and runs no PostCommit: freed numbers never return to the in-memory allocator")
+		R.Check(e.relBad == "", id, FuncName(f)+"|release after durability", P.Pos(f.Pos()), "locks are released and frees published only after the durability point", "no release/PostCommit precedes it on any explored path", "locks released or frees published before the commit point at "+e.relBad)
 	}
-	// wait flag plumbing: commitWait passes its parameter; Commit/CommitData
-	// reach it with true; CommitUnstable with false.
-	if V.commitWait != nil {
-		fb := funnelBody(c, V.commitWait, funcIs(V.JrnlCommitWait))
-		for _, call := range P.CallsIn(fb.Fn, funcIs(V.JrnlCommitWait)) {
-			a := fb.S.resolve(argN(call, 0))
-			pa, isParam := a.(*ssa.Parameter)
-			isParam = isParam && pa.Parent() == V.commitWait
-			R.Check(isParam, id, "fstxn.commitWait|wait passed through", P.Pos(call.Pos()), "commitWait(wait) passes its own parameter to jrnl.CommitWait", "argument is the parameter", "the wait flag given to the journal is not the caller's")
-		}
-	}
+	// the wait flag: Commit/CommitData reach jrnl.CommitWait with true, CommitUnstable with false, on every path
 	want := map[*ssa.Function]bool{V.Commit: true, V.CommitData: true, V.CommitUnstable: false}
 	for f, w := range want {
 		if f == nil {
 			continue
 		}
-		got, ok := waitConst(c, f, 0)
-		R.Check(ok && got == w, id, FuncName(f)+"|wait constant", P.Pos(f.Pos()), fmt.Sprintf("%s reaches commitWait with wait=%v on every path", FuncName(f), w), "constant propagated through the wrapper chain", fmt.Sprintf("expected wait=%v, found ok=%v value=%v", w, ok, got))
-	}
-}
-
-// waitConst: the constant wait flag with which f reaches commitWait on every
-// path (through Commit -> commitWait wrappers).
-func waitConst(c *Ctx, f *ssa.Function, depth int) (bool, bool) {
-	V := c.V
-	if depth > 4 || f == nil {
-		return false, false
-	}
-	var val *bool
-	found := false
-	always := c.P.NewAlways(func(in ssa.Instruction) bool {
-		cal := staticCallee(in)
-		return cal == V.commitWait || cal == V.Commit || cal == V.CommitData
-	})
-	if !always.Func(f) {
-		return false, false
-	}
-	for _, b := range f.Blocks {
-		for _, in := range b.Instrs {
-			cal := staticCallee(in)
-			if cal == nil {
-				continue
+		e := cp.byFn[f]
+		ok := e != nil && !e.exceeded && !e.noDurPath && len(e.wait) == 1 && e.wait[fmt.Sprint(w)]
+		found := "not a commit terminator"
+		if e != nil {
+			var vs []string
+			for v := range e.wait {
+				vs = append(vs, v)
 			}
-			if _, isCall := in.(*ssa.Call); !isCall {
-				continue
-			}
-			var v bool
-			var ok bool
-			if cal == V.commitWait {
-				v, ok = constBool(argN(in, 0))
-			} else if cal == V.Commit || cal == V.CommitData {
-				v, ok = waitConst(c, cal, depth+1)
-			} else {
-				continue
-			}
-			if !ok {
-				return false, false
-			}
-			if val != nil && *val != v {
-				return false, false
-			}
-			val = &v
-			found = true
+			sort.Strings(vs)
+			found = fmt.Sprintf("wait values %v, path without commit=%v", vs, e.noDurPath)
 		}
+		R.Check(ok, id, FuncName(f)+"|wait constant", P.Pos(f.Pos()), fmt.Sprintf("%s reaches jrnl.CommitWait with wait=%v on every path", FuncName(f), w), "constant on every explored path", fmt.Sprintf("expected wait=%v, found %s", w, found))
 	}
-	if !found {
-		return false, false
-	}
-	return *val, true
 }
 
 // ---------------------------------------------------------------- R3
